@@ -117,6 +117,10 @@ func cmdDrive(args []string) {
 			driveKernel(r, w, id, &cv)
 			continue
 		}
+		if *prof == "cowkeys" {
+			driveCowKeys(r, w, id, *bits, *maxAtoms, &cv)
+			continue
+		}
 		if *prof == "aggkernel" {
 			driveAggKernel(r, w, id, &cv)
 			continue
@@ -670,6 +674,99 @@ func driveAggSparse(r *rand.Rand, w *bufio.Writer, id int, bits int, maxAtoms in
 		e.run(Call{Op: "Clone", Dst: 6, X: 1})
 		e.run(Call{Op: "AndAny", X: 6, Xs: []int{2, 3}})
 	}
+	cv.Traces++
+	cv.Events += e.events
+	for k, v := range e.cover {
+		cv.Ops[k] += v
+	}
+}
+
+// driveCowKeys: a copy-on-write clone over sparse keys becomes partly private (writes in its lowest / highest / random
+// keys), then an in-place operation drops or keeps whole keys (AndNot / And / Xor / Or / RemoveRange with an operand
+// covering the first keys, the last keys, or a random half), then both clone and original are written to in every
+// key. Per-key copy-on-write flags must travel with their keys through every slide of the key array.
+func driveCowKeys(r *rand.Rand, w *bufio.Writer, id int, bits int, maxAtoms int, cv *coverOut) {
+	u, gens := sparseKeysUniverse(r, bits, maxAtoms)
+	e := newExec(u, w, id, r.Int63())
+	e.begin()
+	g0, _ := u.project(gens[0].union(gens[1]))
+	if len(g0) == 0 {
+		return
+	}
+	sort.Ints(g0)
+	e.run(Call{Op: "Build", Dst: 1, As: g0, Rcp: pick(r, []string{"Rc", "Mc", "Rc", "Roc"})})
+	e.run(Call{Op: "Clone", Dst: 2, X: 1})
+	cellOf := func(a int) int { return u.atom(a).Cell }
+	lowCell, highCell := cellOf(g0[0]), cellOf(g0[len(g0)-1])
+	write := func(slot int, a int) {
+		at := u.atom(a)
+		if h, n := at.Set.count128(); h == 0 && n == 1 { // a single value: point update
+			if r.Intn(2) == 0 {
+				e.run(Call{Op: "Remove", X: slot, A: a})
+			} else {
+				e.run(Call{Op: "Add", X: slot, A: a})
+			}
+			return
+		}
+		e.run(Call{Op: "Build", Dst: 4, As: []int{a}, Rcp: "R"})
+		if r.Intn(2) == 0 {
+			e.run(Call{Op: "AndNot", X: slot, Y: 4})
+		} else {
+			e.run(Call{Op: "Or", X: slot, Y: 4})
+		}
+	}
+	pointAtoms := func(cell int) []int { // atoms of g0 in that cell
+		var out []int
+		for _, a := range g0 {
+			if cellOf(a) == cell {
+				out = append(out, a)
+			}
+		}
+		return out
+	}
+	// make some keys of the clone private
+	for _, c := range []int{lowCell, highCell, cellOf(g0[r.Intn(len(g0))])} {
+		if r.Intn(3) != 0 {
+			as := pointAtoms(c)
+			write(2, as[r.Intn(len(as))])
+		}
+	}
+	// the operand: atoms of the first keys, of the last keys, or a random half
+	var opnd []int
+	switch r.Intn(4) {
+	case 0:
+		opnd = pointAtoms(lowCell)
+	case 1:
+		opnd = pointAtoms(highCell)
+	case 2:
+		cut := cellOf(g0[len(g0)/2])
+		for _, a := range g0 {
+			if cellOf(a) <= cut {
+				opnd = append(opnd, a)
+			}
+		}
+	default:
+		for _, a := range g0 {
+			if r.Intn(2) == 0 {
+				opnd = append(opnd, a)
+			}
+		}
+	}
+	sort.Ints(opnd)
+	e.run(Call{Op: "Build", Dst: 3, As: opnd, Rcp: pick(r, []string{"R", "M", "Rc"})})
+	op := pick(r, []string{"AndNot", "AndNot", "And", "Xor", "Or"})
+	tgt := 2
+	if r.Intn(4) == 0 {
+		tgt = 1
+	}
+	e.run(Call{Op: op, X: tgt, Y: 3})
+	// now write everywhere, on both sides
+	for _, a := range g0 {
+		if r.Intn(2) == 0 {
+			write(1+r.Intn(2), a)
+		}
+	}
+	e.run(Call{Op: "Equals", X: 1, Y: 2})
 	cv.Traces++
 	cv.Events += e.events
 	for k, v := range e.cover {
